@@ -129,10 +129,11 @@ class KindRun:
         self.outs, self.ins = [], []
         for i, a in enumerate(c["outs"]):
             nb = FAKE[a["ty"]](f"o{i}", part, a["nb"])
-            self.outs.append((arcs.Arc(name=f"ao{i}", in_port=self.hub, out_port=nb, capacity=Ex(a["cap"]), preference=Ex(a["pref"])), nb))
+            self.outs.append((getattr(arcs, a.get("acls", "Arc"))(name=f"ao{i}", in_port=self.hub, out_port=nb, capacity=Ex(a["cap"]), preference=Ex(a["pref"])), nb))
         for i, a in enumerate(c["ins"]):
             nb = FAKE[a["ty"]](f"i{i}", part, a["nb"])
-            self.ins.append((arcs.Arc(name=f"ai{i}", in_port=nb, out_port=self.hub, capacity=Ex(a["cap"]), preference=Ex(a["pref"])), nb))
+            # ("acls": the arc class, set by the monitors only - the stars of coq/Distrib.v have plain arcs)
+            self.ins.append((getattr(arcs, a.get("acls", "Arc"))(name=f"ai{i}", in_port=nb, out_port=self.hub, capacity=Ex(a["cap"]), preference=Ex(a["pref"])), nb))
 
     def do(self, op):
         p, h, k = self.part, self.hub, op[0]
@@ -421,6 +422,18 @@ K.add_imports("Distrib", "Kinds", "Boundary")
 # ---------------------------------------------------------------------------
 # C19 monitor: the property clauses on the real River / RiverReservoir with tank-backed neighbours
 # ---------------------------------------------------------------------------
+def upstream_drawable(R):
+    """what the reach could draw from upstream River / Node neighbours right now: every such in-arc is asked on its own
+    (the hub's own summary, Node.get_connected, is not consulted); sub-epsilon answers count as nothing"""
+    tot = F(0)
+    for arc, nb in R.ins:
+        if type(nb).__name__ in ("River", "Node"):
+            a = frac(arc.send_pull_check()["volume"])
+            if a >= EPS:
+                tot += a
+    return tot
+
+
 def monitor_c19(rep, n, pid="C19"):
     import mon_comp as M
     from exnum import exp_s
@@ -443,6 +456,12 @@ def monitor_c19(rep, n, pid="C19"):
             if a["nb"]["kind"] != "tank":
                 a["nb"] = {"kind": "tank", "cap": r.choice([F(5), F(10), F(100), UNBOUNDED]), "init": G.rand_vqip(r, len(c["adds"]), len(c["nons"]), wet=True)}
         if c["cls"] == "River":
+            if ci % 3 == 1:
+                # upstream reaches that feed this one through one-way arcs: a push-only arc carries no pull, so what stands
+                # behind it is not water the reach can draw on
+                for a in c["ins"]:
+                    a["acls"] = r.choice(["Arc", "PushArc", "PushArc", "PullArc"])
+                st["with_one_way_upstream_arcs"] = st.get("with_one_way_upstream_arcs", 0) + 1
             c["ops"] = [("pull", r.choice([G.rand_q(r), F(3), F(8), F(20), F(200)])) if r.random() < 0.8 else r.choice([("push", K.push_amount(r, K.Part(c["adds"], c["nons"]), F(10))), ("distribute",)])
                         for _ in range(r.randint(1, 8))]
             if ci % 4 == 2 and len(c["ops"]) >= 2:
@@ -465,7 +484,7 @@ def monitor_c19(rep, n, pid="C19"):
             for i, op in enumerate(c["ops"]):
                 with contextlib.redirect_stdout(io.StringIO()):
                     if c["cls"] == "River":
-                        up = frac(h.get_connected(direction="pull", of_type=["River", "Node"])["avail"])
+                        up = upstream_drawable(R)
                         # the allowance its current parameters imply (computed here, not asked of the river)
                         from wsimod.nodes import storage as _st
                         kt = h.damp * (h.length / h.velocity)
@@ -488,7 +507,7 @@ def monitor_c19(rep, n, pid="C19"):
                     st["abstractions"] += 1
                     got = frac(rr["volume"])
                     with contextlib.redirect_stdout(io.StringIO()):
-                        up2 = frac(h.get_connected(direction="pull", of_type=["River", "Node"])["avail"])
+                        up2 = upstream_drawable(R)
                     W2 = frac(h.tank.storage["volume"]) + up2
                     if W <= allow:
                         st["started_below"] += 1
@@ -590,3 +609,106 @@ def monitor_c08_kinds(rep, n, pid="C08"):
             G.reset_partition()
     st["violations"] = viol
     rep.monitor[f"{pid}_kind_filters"] = st
+
+
+def monitor_c18_suppliers(rep, n, pid="C18"):
+    """C18 on a two-level neighbourhood, on the implementation: a junction gathers a pull from 1-4 suppliers that are REAL
+    store-backed nodes (River with tank-backed River / Node reaches upstream of it, Reservoir, Storage, Groundwater) over
+    arcs with capacities and preferences.  The oracle is computed from the contents before the request (the library's own
+    checks are not consulted): what a supplier could give = its own store (for a River: own store plus what stands in the
+    upstream stores within the upstream arc capacities, less its minimum-flow allowance), within the capacity left on
+    its arc.  Clauses: the total delivered is no more than asked and no more than the suppliers could give together;
+    each arc's piece is no more than its supplier could give; the pieces add up to the total; and exactly the delivered
+    volume has left the stores of the suppliers and of what stands upstream of them."""
+    from wsimod.arcs import arcs as A
+    from wsimod.nodes.nodes import Node
+    from wsimod.nodes import storage as _st
+    r = C.rng("mon_c18_suppliers")
+    viol = 0
+    st = {"cases": 0, "pulls": 0, "river_suppliers_with_upstream_water": 0, "limited_by_suppliers": 0}
+    for ci in range(n):
+        adds, nons = G.rand_partition(r, 0, 2, 1)
+        part = K.Part(adds, nons)
+        install_exact()
+        G.set_partition(adds, nons)
+        try:
+            C.arm(30)
+            with contextlib.redirect_stdout(io.StringIO()):
+                hub = Node(name="puller")
+            sup = []
+            desc = []
+            for j in range(r.choice([1, 2, 2, 3, 4])):
+                c = gen_kind_case(r, 1)
+                c["cls"] = r.choice(["River", "River", "Reservoir", "Storage", "Groundwater"])
+                c["outs"] = []
+                c["ins"] = [a for a in c["ins"] if a["ty"] in (0, 1)] if c["cls"] == "River" else []
+                for a in c["ins"]:
+                    a["nb"] = {"kind": "tank", "cap": UNBOUNDED, "init": G.rand_vqip(r, part.na, part.nn, wet=True)}
+                c["adds"], c["nons"] = adds, nons
+                c["init"] = G.rand_vqip(r, part.na, part.nn, wet=True)
+                if c["cls"] != "River" and c["init"][0] > c["cap"]:
+                    c["cap"] = c["init"][0] * 2
+                R = KindRun(c)
+                with contextlib.redirect_stdout(io.StringIO()):
+                    arc = A.Arc(name=f"s{j}", in_port=R.hub, out_port=hub, capacity=Ex(r.choice([F(3), F(25, 2), UNBOUNDED, UNBOUNDED])),
+                                preference=Ex(r.choice([F(1), F(1), F(2), F(1, 2)])))
+                sup.append((R, arc))
+                desc.append({"cls": c["cls"], "init": str(c["init"][0]), "mrf": str(c["mrf"]), "arc_capacity": str(frac(arc.capacity)),
+                             "upstream": [{"type": TYPE_NAMES[a["ty"]], "holds": str(a["nb"]["init"][0]), "arc_capacity": str(a["cap"])} for a in c["ins"]]})
+
+            def stock():
+                return sum(frac(R.hub.tank.storage["volume"]) + sum(frac(nb.fk.tank.storage["volume"]) for a, nb in R.ins) for R, arc in sup)
+
+            def could_give(R, arc):
+                own = frac(R.hub.tank.storage["volume"])
+                if R.c["cls"] == "River":
+                    h = R.hub
+                    up = sum(max(min(frac(nb.fk.tank.storage["volume"]), frac(a.capacity) - frac(a.flow_in)), 0) for a, nb in R.ins)
+                    kt = h.damp * (h.length / h.velocity)
+                    rc = frac(1 - kt + kt * _st.exp(-1 / kt)) if frac(kt) != 0 else F(1)
+                    own = max(own + up - frac(h.mrf) / rc, 0)
+                    if up > 0:
+                        st["river_suppliers_with_upstream_water"] += 1
+                return max(min(own, frac(arc.capacity) - frac(arc.flow_in)), 0)
+            asks = [r.choice([G.rand_q(r), F(1), F(7), F(30), F(1000)]) for _ in range(r.randint(1, 3))]
+            for i, q in enumerate(asks):
+                s0 = stock()
+                feas = [could_give(R, arc) for R, arc in sup]
+                rec0 = [frac(arc.vqip_in["volume"]) for R, arc in sup]
+                with contextlib.redirect_stdout(io.StringIO()):
+                    try:
+                        got = frac(hub.pull_distributed({"volume": Ex(q)})["volume"])
+                    except ZeroDivisionError:
+                        break
+                st["pulls"] += 1
+                pieces = [frac(arc.vqip_in["volume"]) - x for (R, arc), x in zip(sup, rec0)]
+                left = s0 - stock()
+                bad = []
+                if got > q + EPS * 10:
+                    bad.append(f"pulled {got} for a request of {q}")
+                if got > sum(feas) + EPS * 10:
+                    bad.append(f"pulled {got} although the suppliers (with everything upstream of them) could give only {sum(feas)}")
+                for j, (p_, f_) in enumerate(zip(pieces, feas)):
+                    if p_ > f_ + EPS * 10:
+                        bad.append(f"arc {j} ({desc[j]['cls']}) carried {p_}, its supplier could give only {f_}")
+                if sum(pieces) != got:
+                    bad.append(f"the pieces on the arcs add up to {sum(pieces)}, the total reported is {got}")
+                if left != got:
+                    bad.append(f"{got} was delivered but {left} left the stores of the suppliers and of what stands upstream of them")
+                if sum(feas) < q:
+                    st["limited_by_suppliers"] += 1
+                if bad:
+                    viol += 1
+                    if viol <= 3:
+                        rep.violation("counterexample", f"{pid} monitor (real suppliers): request {i} of {q}: " + "; ".join(bad[:3]),
+                                      {"part": "suppliers", "partition": [adds, nons], "suppliers": desc, "requests": [str(x) for x in asks[:i + 1]]}, True)
+                    break
+            st["cases"] += 1
+            rep.add_eval(("mon_c18_suppliers", ci), nontrivial=len(sup) >= 2)
+        except C.TooSlow:
+            pass
+        finally:
+            C.disarm()
+            G.reset_partition()
+    st["violations"] = viol
+    rep.monitor[f"{pid}_real_suppliers"] = st
